@@ -41,7 +41,7 @@ func (f *g2lFn) usedOuter(nodes []ast.Node, before token.Pos, exclude map[*types
 			continue
 		}
 		ast.Inspect(n, func(n ast.Node) bool {
-			if _, ok := n.(*ast.FuncLit); ok {
+			if fl, ok := n.(*ast.FuncLit); ok && !f.isGoLit(fl) {
 				return false
 			}
 			id, ok := n.(*ast.Ident)
@@ -50,6 +50,9 @@ func (f *g2lFn) usedOuter(nodes []ast.Node, before token.Pos, exclude map[*types
 			}
 			v, ok := f.p.info.Uses[id].(*types.Var)
 			if !ok || v.IsField() || v.Parent() == f.p.pkg.Scope() || v.Pkg() != f.p.pkg {
+				return true
+			}
+			if f.isWorldObj(v.Type()) {
 				return true
 			}
 			if cl, ok := f.closures[v]; ok {
@@ -135,6 +138,23 @@ func (f *g2lFn) buildLoop(sp *loopSpec, rest kont) []string {
 	loop := &g2lLoop{name: name, hasRet: sp.hasRet, resType: resType}
 	if f.effType != "" {
 		sp.captured = append(sp.captured, nameType{"effLog", "(List " + f.effType + ")"})
+	}
+	if f.worldVar != nil && !f.inClosure {
+		// a loop of a world function that does not change the world still returns it (a `return` inside the loop)
+		has := false
+		for _, c := range sp.carried {
+			if c.name == "world" {
+				has = true
+			}
+		}
+		for _, c := range sp.captured {
+			if c.name == "world" {
+				has = true
+			}
+		}
+		if !has {
+			sp.captured = append(sp.captured, nameType{"world", f.worldType})
+		}
 	}
 	capArgs := []string{}
 	capParams := []string{}
